@@ -198,6 +198,7 @@ fn main() {
             };
             std::process::exit(code);
         }
+        Some("nbh-debug") => std::process::exit(nbh_mc::debug(&args[2])),
         Some("survey") => {
             evidence::init_stdout();
             let tier = args.get(2).cloned().unwrap_or_else(|| "quick".into());
